@@ -46,8 +46,8 @@ def load_lock():
     return set(l.strip() for l in open(LOCK) if l.strip() and not l.startswith("#"))
 
 
-def run_all(selector, tier="quick"):
-    """selector(contract) -> bool. Returns merged results."""
+def run_all(selector, tier="quick", only=None):
+    """selector(contract) -> bool. Returns merged results.  only=(qualname, index): that one instance."""
     from . import contracts as C
     reg = C.load_contracts()
     jobs = []
@@ -55,6 +55,8 @@ def run_all(selector, tier="quick"):
         if c.trusted or not selector(c):
             continue
         for i in range(len(c.instances)):
+            if only is not None and (qn, i) != only:
+                continue
             if tier == "quick" and c.quick_instances is not None and i not in c.quick_instances:
                 continue        # expensive functions: a representative subset on every change, all in the thorough tier
             jobs.append((qn, i))
@@ -242,10 +244,34 @@ def _join(a, b):
     return out
 
 
+def _undecided(r):
+    """an instance whose verdict may be an artefact of load: an obligation left open (`unknown` / timeout, never a
+    counter-model), or the path / time budget exceeded"""
+    if r.get("status") == "unsupported" and "budget exceeded" in (r.get("unsupported") or ""):
+        return True
+    return any(o["status"] == "open" for o in r.get("obligations", []))
+
+
 def run_property(prop, tier, seed):
     if tier == "thorough":
         os.environ["QVC_CROSSCHECK"] = "1"
     reg, results = run_all(lambda c: prop in c.props, tier)
+    # second, patient attempt for undecided instances: one after the other (the whole machine for each), budgets x4.
+    # `unknown` is not a verdict (DESIGN 3): only what is still open after this is reported.
+    retry = [i for i, r in enumerate(results) if _undecided(r)]
+    if retry and len(retry) <= 3:      # isolated cases only: a genuine breakage leaves many instances open at once
+        os.environ["QVC_PATIENT"] = "1"
+        try:
+            for i in retry:
+                qn, inst = results[i]["qualname"], results[i]["instance"]
+                idx = reg[qn].instances.index(inst) if isinstance(inst, dict) else inst
+                reg2, again = run_all(lambda c, qn=qn: c.qualname == qn, "thorough", only=(qn, idx))
+                if again and not _undecided(again[0]) or (again and sum(o["status"] != "discharged" for o in again[0]["obligations"]) <
+                                                          sum(o["status"] != "discharged" for o in results[i]["obligations"])):
+                    again[0]["retried"] = True
+                    results[i] = again[0]
+        finally:
+            os.environ.pop("QVC_PATIENT", None)
     cres = run_c(prop) if prop in C_PROPS else None
     if not results and cres is None:
         return None
